@@ -302,7 +302,7 @@ def snap(state: PureFockState, instruction: Instruction, shots: int) -> List[Bra
     mode = instruction.modes[0]
     theta = np.array(instruction._get_all_params(state._connector)["theta"])
 
-    if state._config.validate and len(theta) != cutoff:
+    if state._config.validate and len(theta) < cutoff:
         raise InvalidParameter(
             f"Length of SNAP parameter must be equal to cutoff: {cutoff},"
             f" but got {len(theta)}."
